@@ -13,7 +13,32 @@ open FileD Tok Batcher
 /-- logical timeout used by the replay (any value works: time enters only through the status of `s`) -/
 def logicalTimeout : Nat := 10
 
+/-- `c08.stopstress …`: gate-free Stop stress; the model's answer is the theorem
+    `stop_never_panics` / `stop_commits_only_sent`: always `ok` -/
+def handleStress (impl : List String) : Option (String × String) :=
+  some ("ok", if impl == ["ok"] then "ok" else "fail")
+
+/-- `c08.trickle <workers> <timeoutMs> <gapMs> <count> <bytes> <n> …`: same replay as c08.trace; the oracle adds
+    the literal staleness clause in heartbeat iterations (timeoutMs/100 + 4 of them at most) -/
+def handleTrickle (args impl : List String) : Option (String × String) :=
+  match args with
+  | w :: tmo :: _gap :: cnt :: byt :: _ => do
+    let workers ← nat? w
+    let timeoutMs ← nat? tmo
+    let maxCount ← nat? cnt
+    let maxBytes ← nat? byt
+    let cfg : Cfg := { workers, maxCount, maxBytes, timeout := logicalTimeout, enqueueLocked := true }
+    match parseTks (impl.length + 1) impl with
+    | none => pure ("bad-trace", "bad-impl")
+    | some tks =>
+      let m := renderReplay (replay cfg { st := init cfg } tks 0 [])
+      let p := if SpecC08.holds maxCount maxBytes tks && SpecC08.staleTicksOk (timeoutMs / 100 + 4) tks then "ok" else "fail"
+      pure (m, p)
+  | _ => none
+
 def handle (cmd : String) (args impl : List String) : Option (String × String) :=
+  if cmd = "c08.stopstress" then handleStress impl else
+  if cmd = "c08.trickle" then handleTrickle args impl else
   if cmd ≠ "c08.trace" then none else
   match args with
   | w :: cnt :: byt :: _ => do
